@@ -10,23 +10,10 @@ from ..peval import Evaluator, Model, Unsupported, RaisedInModel
 from ..source import norm, const_value, walk_no_nested, FuncInfo
 from .common import is_name, params, returns_of, calls_in, bind_call
 
-EXPLANATION = (
-    "Static rules: (R1) interprocedural provenance analysis (D3) from each of map, histogram1d, histogram2d, scatter and plot "
-    "through every resolved callee (parse_layer, Layer.copy/__init__, get_norm, get_direction, VectorBasis, normalize, "
-    "_add_scatter, render and every public function of plot/wrappers.py): no attribute/subscript store, del, in-place "
-    "operator or mutating method call reaches an object that may alias something passed by the caller (ax/fig and the "
-    "matplotlib norm autoscaling in wrappers.streamplot are named exemptions); (R2) precedence: parse_layer and "
-    "Layer.update are evaluated over all combinations layer-value in {unset, falsy, set} x call-value in {unset, set} for "
-    "the seven option fields and the extra keyword options: the layer value wins unless it is None, the input layer is not "
-    "modified and the result is a distinct object; every entry point forwards each call-level option under its own name and "
-    "builds the norm from the merged layer fields; (R3) no module-level mutable state of plot/ or core/layer.py is written; "
-    "(R4) an option that is forwarded to parse_layer has no other use in the entry point (after the merge the function "
-    "must read the merged layer).")
-NOT_DECIDED = "what matplotlib draws; equality of the returned data as numbers (follows from R1/R3 + determinism of the kernels)"
-TRUSTED = ("CPython ast", "catalogue of mutating methods (sa/origin.py)", "library objects' non-catalogued methods do not "
-           "mutate their receiver", "a fresh abstract object may summarise several concrete objects of one allocation site")
-TECHNIQUE = ("static analysis: interprocedural, flow- and field-sensitive provenance (may-alias-a-parameter) analysis over the "
-             "resolved call graph; finite-case evaluation of the option-merging code")
+EXPLANATION = "(R1) interprocedural provenance analysis (D3) from map, histogram1d, histogram2d, scatter and plot through every resolved callee: no store, del, in-place operator or mutating method reaches an object that may alias a caller's argument (ax/fig and the matplotlib norm autoscaling are named exemptions); tuples, zip/enumerate/items keep positions apart; (R2) parse_layer, Layer.update, Layer.copy and the component views interpreted over {unset, falsy, set} x {unset, set} for every option field jointly and one field at a time: layer value wins unless None, extra options merged, result distinct with its own dictionaries; get_norm over norm kinds; every entry point hands each call-level option to parse_layer under its own name (dependence analysis D4 into parse_layer's parameters); (R3) no module-level mutable state of plot/ or core/layer.py is written; (R4) a call-level option (incl. **kwargs) reaches library calls and comparisons only through the merged layer (D4 with relabelling at parse_layer)."
+NOT_DECIDED = 'what matplotlib draws; equality of the returned data as numbers (follows from R1/R3 + determinism of the kernels)'
+TRUSTED = ('CPython ast', 'catalogue of mutating methods (sa/origin.py)', "library objects' non-catalogued methods do not mutate their receiver", 'the interpreter sa/models.py (ModelEval) and its library models')
+TECHNIQUE = 'static analysis: interprocedural provenance (may-alias-a-parameter) and dependence analyses over the resolved call graph; abstract interpretation of the option-merging code'
 
 ENTRIES = ["plot/map.py::map", "plot/histogram1d.py::histogram1d", "plot/histogram2d.py::histogram2d",
            "plot/scatter.py::scatter", "plot/plot.py::plot"]
